@@ -152,10 +152,11 @@ theorem QGood.newEntity (run : ProbeRunner) (p : Path) {w : World} (g : QGood w)
     (hreg : ∀ (c : Comp), c ∈ ids → c < w.kinds.length)
     (hnd : (rels.map (·.comp)).Nodup) (hin : ∀ (r : RelID), r ∈ rels → r.comp ∈ ids)
     (hrc : ∀ (r : RelID), r ∈ rels → w.isRelComp r.comp = true)
+    (htin : ∀ (r : RelID), r ∈ rels → r.target.id < w.pool.ents.length)
     (hfew : w.tables.length < maxU32) (hrows : w.entities.length + 1 < 2 ^ 32)
     (hnp : panicOf (opNewEntity run p ids vals rels w) = none) :
     QGood (opNewEntity run p ids vals rels w).state := by
-  have good' := g.good.newEntity run p hreg hnd hin hrc hfew hrows hnp
+  have good' := g.good.newEntity run p hreg hnd hin hrc htin hfew hrows hnp
   obtain ⟨fl, h, hl, hno⟩ := g.good
   obtain ⟨e, hok⟩ := ok_of_panicOf hnp
   generalize (opNewEntity run p ids vals rels w).state = w' at hok good' ⊢
